@@ -12,6 +12,7 @@ import (
 	"net/http"
 	"net/http/httptest"
 	"net/textproto"
+	"reflect"
 	"sort"
 	"strconv"
 	"strings"
@@ -89,15 +90,73 @@ func (e *errSpec) build() error {
 		return err
 	case "multistatus":
 		return multiStatusErr{multiErr{[]error{errors.New(e.msg)}}, e.code}
+	// errors WITHOUT a status of their own that wrap one that has
+	case "wrap1":
+		return fmt.Errorf("%s: %w", e.msg, stErr{e.code, "buried status error"})
+	case "wrap2":
+		return fmt.Errorf("outer %s: %w", e.msg, fmt.Errorf("inner: %w", client.HTTPResponseError{Code: e.code, Msg: "buried"}))
+	case "join":
+		return errors.Join(errors.New(e.msg), stErr{e.code, "joined status error"})
+	case "unwrapmulti":
+		return unwrapMultiErr{multiErr{[]error{errors.New(e.msg), stErr{e.code, "entry with status"}}}}
+	case "isas":
+		return isAsErr{msg: e.msg, inner: stErr{e.code, "reachable through As"}}
+	case "mergestatus":
+		acc := proxy.VerifNewAccumulator(2)
+		acc.Merge(nil, client.HTTPResponseError{Code: e.code, Msg: e.msg})
+		acc.Merge(nil, errors.New("second backend"))
+		_, err := acc.Result()
+		return err
 	}
 	panic("unknown error kind " + e.kind)
 }
+
+// a multi-error that also exposes its entries to errors.Is/As
+type unwrapMultiErr struct{ multiErr }
+
+func (m unwrapMultiErr) Unwrap() []error { return m.es }
+
+// an error with Is/As methods of its own: As hands out the status error it holds to any
+// target that can take it
+type isAsErr struct {
+	msg   string
+	inner stErr
+}
+
+func (e isAsErr) Error() string        { return e.msg }
+func (e isAsErr) Is(target error) bool { return target == error(e.inner) }
+func (e isAsErr) As(target interface{}) bool {
+	v := reflect.ValueOf(target)
+	if v.Kind() != reflect.Ptr || v.IsNil() {
+		return false
+	}
+	if reflect.TypeOf(e.inner).AssignableTo(v.Elem().Type()) {
+		v.Elem().Set(reflect.ValueOf(e.inner))
+		return true
+	}
+	return false
+}
+
+var wrappedKinds = []string{"wrap1", "wrap2", "join", "unwrapmulti", "isas", "mergestatus"}
 
 func (e *errSpec) hasStatus() bool {
 	return e.kind == "status" || e.kind == "httpresp" || e.kind == "multistatus"
 }
 func (e *errSpec) isMulti() bool {
-	return e.kind == "multi" || e.kind == "merge" || e.kind == "multistatus"
+	return e.kind == "multi" || e.kind == "merge" || e.kind == "multistatus" || e.kind == "unwrapmulti" || e.kind == "mergestatus"
+}
+
+// buried: a status code carried by something the error wraps, not by the error itself
+func (e *errSpec) buried() (int, bool) {
+	switch e.kind {
+	case "wrap1", "wrap2", "join", "unwrapmulti", "isas", "mergestatus":
+		return e.code, true
+	case "multi":
+		return 418, true
+	case "merge":
+		return 404, true
+	}
+	return 0, false
 }
 
 // ---- response values -------------------------------------------------------------------
@@ -418,8 +477,9 @@ func (c cell) coqInput() string {
 	}
 	perr := "None"
 	if c.err != nil {
-		perr = emit.Some(fmt.Sprintf("(mk_perr %s %s %s)",
-			optZ(c.err.hasStatus(), c.err.code), emit.Bool(c.err.isMulti()), emit.Str(c.err.build().Error())))
+		bc, bok := c.err.buried()
+		perr = emit.Some(fmt.Sprintf("(mk_perr %s %s %s %s)",
+			optZ(c.err.hasStatus(), c.err.code), emit.Bool(c.err.isMulti()), emit.Str(c.err.build().Error()), optZ(bok, bc)))
 	}
 	ces := make([]string, len(c.ctxErrs))
 	for i, e := range c.ctxErrs {
@@ -647,6 +707,19 @@ func main() {
 		add(c, "corpus")
 	}
 
+	// errors that only WRAP a status error: no status of their own, so the translator decides
+	for _, impl := range impls {
+		for ki, k := range wrappedKinds {
+			c := std(impl, "RJson")
+			c.err = &errSpec{kind: k, code: []int{204, 404, 418}[ki%3], msg: "wrapping"}
+			add(c, "corpus")
+			c.defF, c.errf = false, 502
+			add(c, "corpus")
+			c.resp = &respSpec{dataJS: dataEmpty, complete: true}
+			add(c, "corpus")
+		}
+	}
+
 	// gin: an earlier middleware left errors in c.Errors (no abort): the reply must be that of
 	// THIS pipeline's pair - 418 stays 418, (nil, nil) stays 200 {}
 	ctxPool := [][]ctxErr{{{kind: "plain"}}, {{kind: "status", code: 503}}, {{kind: "meta"}},
@@ -691,6 +764,8 @@ func main() {
 			{resp: partial, err: &errSpec{kind: "merge", msg: "partial and failed"}, ver: v},
 			{resp: complete, ver: v},
 			{resp: &respSpec{dataNil: true, complete: true}, ver: v},
+			{err: &errSpec{kind: "wrap1", code: 204, msg: "wrapped"}, ver: v},
+			{resp: empty, err: &errSpec{kind: "join", code: 404, msg: "joined"}, ver: v},
 		}
 	}
 	sequence := func(cfgc cell, specs []cell, order []int, stream string) {
@@ -717,12 +792,14 @@ func main() {
 
 	// ---- 2. exhaustive core product ----
 	coreMeta := []map[string][]string{nil, {"X-Meta": {"m"}}, {"X-Krakend-Completed": {"true"}, "cache-control": {"public, max-age=9"}}}
-	coreErrs := []*errSpec{nil, {kind: "plain", msg: "plain failure"}, {kind: "status", code: 404, msg: "not here"}, {kind: "multi", msg: "first"}}
+	coreErrs := []*errSpec{nil, {kind: "plain", msg: "plain failure"}, {kind: "status", code: 404, msg: "not here"}, {kind: "multi", msg: "first"},
+		{kind: "wrap1", code: 204, msg: "wrapped"}, {kind: "join", code: 404, msg: "joined"}}
 	coreRenders := []string{"RJson", "RNoop"}
 	coreTTL := []time.Duration{0, time.Hour}
 	if cfg.Thorough() {
 		coreMeta = metaPool
-		coreErrs = append(coreErrs, &errSpec{kind: "merge", msg: "m1"}, &errSpec{kind: "multistatus", code: 429, msg: "ms"})
+		coreErrs = append(coreErrs, &errSpec{kind: "merge", msg: "m1"}, &errSpec{kind: "multistatus", code: 429, msg: "ms"},
+			&errSpec{kind: "wrap2", code: 418, msg: "w2"}, &errSpec{kind: "unwrapmulti", code: 401, msg: "um"}, &errSpec{kind: "isas", code: 409, msg: "ia"})
 		coreRenders = renderNames
 		coreTTL = []time.Duration{0, time.Hour}
 	}
@@ -784,6 +861,10 @@ func main() {
 			c := std(impl, renderNames[code%2]) // json / no-op
 			kinds := []string{"status", "httpresp", "multistatus"}
 			c.err = &errSpec{kind: kinds[code%3], code: code, msg: fmt.Sprintf("e%d", code)}
+			if code%4 == 1 {
+				// the swept code is only buried: the reply must not show it
+				c.err.kind = wrappedKinds[(code/4)%len(wrappedKinds)]
+			}
 			if code%7 == 0 {
 				c.ctxDone = 1
 			}
@@ -896,7 +977,7 @@ func main() {
 			c.resp = rs
 		}
 		if r.Chance(1, 2) {
-			kinds := []string{"plain", "status", "httpresp", "multi", "merge", "multistatus"}
+			kinds := append([]string{"plain", "status", "httpresp", "multi", "merge", "multistatus"}, wrappedKinds...)
 			e := &errSpec{kind: kinds[r.Intn(len(kinds))], msg: []string{"failure", "", "multi\nline <msg>", "érr"}[r.Intn(4)]}
 			e.code = errCodes[r.Intn(len(errCodes))]
 			if r.Chance(1, 20) {
@@ -993,5 +1074,5 @@ func main() {
 		}
 	}
 
-	w.Close("real gin CustomErrorEndpointHandler, mux CustomEndpointHandlerWithHTTPError and the same behind mux.DefaultEngine (HTTPErrorInterceptor), proxy stubbed by a scripted (response, error) pair; corpus; exhaustive core product impl(3) x render x response shape (nil | {empty,non-empty} x complete x metadata headers {none,unrelated,colliding,...}) x error kinds x ttl x context expired; error status sweep 100..999 (+ invalid codes), translator answers, no-op metadata statuses; gin also behind a front middleware that leaves 0-2 errors in c.Errors without aborting (corpus, half of the gin core product, every 4th swept status, 2/5 of the random gin cells, reuse sequences); instance reuse: one handler serving a sequence of different (response, error) pairs (telling order in the corpus, 60 random sequences of 3-6 steps; thorough 600) and the same handler hit from 12 goroutines (distinct (input, observation) pairs); structured random over the full product (renders json/no-op/string/json-collection reached through output_encoding or the backend encoding, nil data map, ttl incl. sub-second/negative, version header value); compared: status, values of X-Krakend-Completed / Cache-Control / X-Krakend, body (JSON tree or raw bytes); nontrivial = anything but (no error, live context, non-empty complete response without metadata, ttl 0, json render)", true)
+	w.Close("real gin CustomErrorEndpointHandler, mux CustomEndpointHandlerWithHTTPError and the same behind mux.DefaultEngine (HTTPErrorInterceptor), proxy stubbed by a scripted (response, error) pair; corpus; exhaustive core product impl(3) x render x response shape (nil | {empty,non-empty} x complete x metadata headers {none,unrelated,colliding,...}) x error kinds x ttl x context expired; error status sweep 100..999 (+ invalid codes), translator answers, no-op metadata statuses; error values incl. errors that only WRAP a status error (fmt %w one and two levels, errors.Join, Unwrap() []error, Is/As methods, lura's merge error) on all implementations; gin also behind a front middleware that leaves 0-2 errors in c.Errors without aborting (corpus, half of the gin core product, every 4th swept status, 2/5 of the random gin cells, reuse sequences); instance reuse: one handler serving a sequence of different (response, error) pairs (telling order in the corpus, 60 random sequences of 3-6 steps; thorough 600) and the same handler hit from 12 goroutines (distinct (input, observation) pairs); structured random over the full product (renders json/no-op/string/json-collection reached through output_encoding or the backend encoding, nil data map, ttl incl. sub-second/negative, version header value); compared: status, values of X-Krakend-Completed / Cache-Control / X-Krakend, body (JSON tree or raw bytes); nontrivial = anything but (no error, live context, non-empty complete response without metadata, ttl 0, json render)", true)
 }
